@@ -49,11 +49,11 @@ def main():
     tier = vlib.tier()
     rng = random.Random(vlib.seed())
     vlib.build_harness()
-    entries = pe.catalogue()
+    entries = [e for e in pe.catalogue() if e["class"] != "aux"]
     caps_all = [0] if tier == "quick" else [0, 1, 2]
     cases = []
     for e in entries:
-        cfgs = pe.configs_for(e, tier, rng, max_alt=2 if tier == "quick" else 5)
+        cfgs = pe.configs_for(e, tier, rng, max_alt=1 if tier == "quick" else 4)
         for ci, cfg in enumerate(cfgs):
             caps = list(caps_all)
             if tier == "quick" and ci == 1:
@@ -131,14 +131,22 @@ def main():
             fc.por = c
             if small:
                 full_cases.append(fc)
-    if tier == "quick":
-        rng.shuffle(full_cases)
-        full_cases = full_cases[:60]
+    # budget: the smallest networks first (by processes x longest input), a bounded number of runs
+    full_cases.sort(key=lambda fc: (len(fc.por.net.procs) * (1 + max(max(lv) for lv in fc.lens)), fc.key()))
+    seen_shape = set()
+    picked = []
+    for fc in full_cases:
+        shape = (fc.pipe, tuple(fc.cfg))
+        if tier == "quick" and shape in seen_shape:
+            continue
+        seen_shape.add(shape)
+        picked.append(fc)
+    full_cases = picked[:40 if tier == "quick" else 160]
 
     def run_full(fc):
         try:
             fc.net, fc.tlc = pe.model_check(fc.wiring, fc.lens, "full", max(fc.west, 0), fc.lag,
-                                            timeout=240 if tier == "quick" else 1200,
+                                            timeout=120 if tier == "quick" else 600,
                                             workers=2 if tier == "quick" else 4, heap="3g")
             fc.terms = pe.term_by_lens(fc.tlc)
         except vlib.Machinery as e:
